@@ -157,18 +157,18 @@ USER_FILES = {"gr/notes.txt": "user notes\n", "gr/helper.go": "package gr\n\n// 
 
 def run_grammar(scr, verdict, binp, rows, stats, tag, with_items, with_resources, gen="v2"):
     """Items and resources of SchemaGrammar.tla in one manifest, generated twice afresh and once more over the first
-    output (regeneration), compiled and vetted.  The root generation has no includes and no custom typerefs by location:
-    those items are left out there."""
+    output (regeneration), compiled and vetted.  The root generation has no custom typerefs by location (those items
+    are left out there) and gets includes flattened the way its schema parser does (grammar.flatten_includes)."""
     tag0 = tag
     tag = tag if gen == "v2" else tag + "-root"
     mod = new_module(scr, gen, "mod-gram-" + tag)
     root = "verifharness/gen"
     if gen == "root":
-        rows = [x for x in rows if not (x["kind"] == "item" and (x["pos"] == "included" or "custom" in x["e"]))
+        rows = [x for x in rows if not (x["kind"] == "item" and "custom" in x["e"])
                 and not (x["kind"] == "resource" and x["key"] == "custom")]
     m = grammar.grammar_manifest(rows, root, with_items=with_items, with_resources=with_resources)
     if gen == "root":
-        m["inputDataTypes"] = [t for t in m["inputDataTypes"] if not list(t.values())[0].get("includes") and list(t.values())[0]["name"] != "CT"]
+        m["inputDataTypes"] = grammar.flatten_includes([t for t in m["inputDataTypes"] if list(t.values())[0]["name"] != "CT"])
     mf = os.path.join(scr.path, "grammar-%s.json" % tag)
     json.dump(m if gen == "v2" else {"dataTypes": m["inputDataTypes"], "Resources": m["resources"]}, open(mf, "w"))
     outs = []
@@ -270,6 +270,113 @@ def regen_layouts(scr, verdict, binp, prop, stats):
         if rc != 0:
             verdict.add("%s/regen/%s/does-not-compile" % (prop, layout), "the regenerated tree does not build: " + out[-800:], dict(layout=layout))
         shutil.rmtree(top, ignore_errors=True)
+
+
+DEP_MAIN = '''package main
+
+import (
+	"fmt"
+	"os"
+
+	"github.com/PapaCharlie/go-restli/v2/restlicodec"
+	"verifharness/gen/gr"
+	"verifharness/gen2/dep"
+)
+
+func main() {
+	defer func() {
+		if r := recover(); r != nil {
+			fmt.Println("PANIC:", r)
+			os.Exit(3)
+		}
+	}()
+	// generic use of the custom typeref (what clients do with keys and parameters): needs the registration the
+	// generator emits beside the hand-written type
+	w := restlicodec.NewCompactJsonWriter()
+	if err := restlicodec.MarshalRestLi(gr.CT{V: "x"}, w); err != nil || w.Finalize() != `"x"` {
+		fmt.Println("MISMATCH: generic marshal of the custom typeref:", err)
+		os.Exit(4)
+	}
+	opt := gr.CT{V: "o"}
+	v := dep.NewDepRecWithDefaultValues()
+	v.C, v.Cs, v.Cm, v.Co, v.L = gr.CT{V: "a"}, []gr.CT{{V: "b"}, {V: "c"}}, map[string]gr.CT{"k": {V: "d"}}, &opt, gr.Leaf{A: 1}
+	if v.Cd == nil || v.Cd.V != "dflt" {
+		fmt.Println("MISMATCH: default of the custom typeref field:", v.Cd)
+		os.Exit(4)
+	}
+	w = restlicodec.NewCompactJsonWriter()
+	if err := v.MarshalRestLi(w); err != nil {
+		fmt.Println("MISMATCH: marshal:", err)
+		os.Exit(4)
+	}
+	doc := w.Finalize()
+	r, _ := restlicodec.NewJsonReader([]byte(doc))
+	back := new(dep.DepRec)
+	if err := back.UnmarshalRestLi(r); err != nil || !back.Equals(v) || !back.ComputeHash().Equals(v.ComputeHash()) {
+		fmt.Printf("MISMATCH: round trip of %s: error %v, equal %v, same hash %v; decoded %+v\\n", doc, err, back.Equals(v), back.ComputeHash().Equals(v.ComputeHash()), back)
+		os.Exit(4)
+	}
+	fmt.Println("OK", doc)
+}
+'''
+
+
+def run_dependent(scr, verdict, binp, stats):
+    """Two package roots: gen/ holds the base types with the custom typeref gr.CT recognised BY LOCATION; gen2/ is
+    generated afterwards from a manifest whose types refer to gen's, with the manifest the first run WROTE as dependency
+    manifest (what --manifest-dependencies reads).  Everything must compile together, and a program using both runs."""
+    mod = new_module(scr, "v2", "mod-dependent")
+    out1, out2 = os.path.join(mod, "gen"), os.path.join(mod, "gen2")
+    os.makedirs(os.path.join(out1, "gr"))
+    with open(os.path.join(out1, grammar.CUSTOM_TYPEREF_FILE), "w") as f:
+        f.write(grammar.CUSTOM_TYPEREF_SRC)
+    m1 = {"packageRoot": "verifharness/gen", "inputDataTypes": list(grammar.BASE_TYPES), "dependencyDataTypes": [], "resources": []}
+    mf1 = os.path.join(scr.path, "dependent-1.json")
+    json.dump(m1, open(mf1, "w"))
+    rc, log = generate(binp, "v2", mf1, out1, None)
+    stats["generator_runs"] += 1
+    if rc != 0:
+        verdict.add("C12/v2/dependent/generator-failed/base", "the generator failed on the base manifest: " + log[-1500:], dict(manifest="dependent-1"))
+        return
+    R, P, F = grammar.R, grammar.P, grammar.F
+    rec = grammar.record("DepRec", [F("c", R("CT")), F("cs", {"array": R("CT")}), F("cm", {"map": R("CT")}), F("co", R("CT"), optional=True),
+                                    F("cd", R("CT"), default="\"dflt\""), F("l", R("Leaf")), F("col", R("Color"), optional=True),
+                                    F("fx", R("F2"), optional=True), F("u", R("U"), optional=True), F("tr", R("Tr"), optional=True),
+                                    F("ol", R("OLeaf", grammar.ONS), optional=True)], ns="dep")
+    un = grammar.named("standaloneUnion", "DepU", ns="dep", Union={"HasNull": False, "Members": [
+        {"Type": R("CT"), "Alias": "ct"}, {"Type": R("Leaf"), "Alias": "leaf"}]})
+    res = grammar.resource([grammar.seg("depColl", "depCollId", R("CT"))], {"reference": {"name": "DepRec", "namespace": "dep"}},
+                           [grammar.method("REST_METHOD", mm, onEntity=mm in grammar.ENTITY_METHODS) for mm in ("get", "batch_get", "update", "delete")]
+                           + [grammar.method("ACTION", "withCt", params=[F("c", R("CT")), F("cs", {"array": R("CT")}, optional=True)], **{"return": R("CT")})])
+    res["namespace"] = "dep.depColl"
+    m2 = {"packageRoot": "verifharness/gen2", "inputDataTypes": [rec, un], "dependencyDataTypes": [], "resources": [res]}
+    mf2 = os.path.join(scr.path, "dependent-2.json")
+    json.dump(m2, open(mf2, "w"))
+    written = os.path.join(out1, "go-restli-manifest.gr.json")
+    p = subprocess.run([binp, mf2, out2, "dep=" + written], stdout=subprocess.PIPE, stderr=subprocess.STDOUT, text=True, errors="replace", timeout=600)
+    stats["generator_runs"] += 1
+    if p.returncode != 0:
+        verdict.add("C12/v2/dependent/generator-failed/dependent", "the generator failed on a manifest that depends on another package root's written manifest: " + p.stdout[-1500:], dict(manifest="dependent-2"))
+        return
+    for d in (out1, out2):
+        for r_, ds, fs in os.walk(d):
+            for f in fs:
+                if f.startswith("all_imports"):
+                    os.chmod(os.path.join(r_, f), 0o644)
+                    os.remove(os.path.join(r_, f))
+    os.makedirs(os.path.join(mod, "prog"))
+    with open(os.path.join(mod, "prog", "main.go"), "w") as f:
+        f.write(DEP_MAIN)
+    rc, bout = go_build(mod)
+    stats["packages_compiled"] += 6
+    if rc != 0:
+        verdict.add("C12/v2/dependent/does-not-compile", "bindings generated against another package root's written manifest (custom typeref by location) do not compile: " + bout[-1500:], dict(manifest="dependent-2"))
+        return
+    p = subprocess.run(["go", "run", "./prog"], cwd=mod, env=lib.GOENV, stdout=subprocess.PIPE, stderr=subprocess.STDOUT, text=True, errors="replace", timeout=600)
+    if p.returncode != 0:
+        verdict.add("C12/v2/dependent/program-fails", "a program using the custom typeref generically and through the dependent bindings fails: " + p.stdout[-800:], dict(manifest="dependent-2"))
+    stats["dependent_programs_run"] = stats.get("dependent_programs_run", 0) + 1
+    shutil.rmtree(mod, ignore_errors=True)
 
 
 def report_compile(verdict, gen, what, out, m, tag):
@@ -438,6 +545,7 @@ def run(tier, seed, replay):
     t1 = time.time()
     run_checked_in(scr, verdict, bins["v2"], stats)
     regen_layouts(scr, verdict, bins["v2"], "C12", stats)
+    run_dependent(scr, verdict, bins["v2"], stats)
     phases["checked-in"] = round(time.time() - t1, 1)
     cov["phase_s"] = phases
     cov.update(stats)
